@@ -748,26 +748,27 @@ def obligations(tier: str) -> list[dict]:
                                                     'inner': ['leaf', 'dtd', 'seq', 'foreach']}, T)
     else:
         T = 3000
-        for w in (3, 4):
-            for first in ['B1', 'B2', 'B3', 'T1', 'T2', 'T3']:
-                ob('fe/2items/%s,?/W%d' % (first, w), 'fe', {'W': w, 'items': first + ',?', 'locs': 'all', 'nshapes': 2,
-                                                             'behs': [B_MORE, B_EMPTY]}, T)
+        for first in ['B1', 'B2', 'B3', 'T1', 'T2', 'T3']:
+            ob('fe/2items/%s,?/W3' % first, 'fe', {'W': 3, 'items': first + ',?', 'locs': 'all', 'nshapes': 2,
+                                                   'behs': [B_MORE, B_EMPTY]}, T)
+            ob('fe/2items/%s,?/W4' % first, 'fe', {'W': 4, 'items': first + ',?', 'locs': 'mixed', 'behs': [B_MORE]}, T)
         for first in ['B1', 'B2', 'T1', 'T2']:
             ob('fe/3items/%s,?,B' % first, 'fe', {'W': 3, 'items': first + ',?,B', 'maxw': 2, 'locs': 'mixed',
-                                                  'behs': [B_EMPTY]}, T)
+                                                  'collect': 'default', 'behs': [B_EMPTY]}, T)
             ob('fe/3items/%s,B,B/W4' % first, 'fe', {'W': 4, 'items': first + ',B,B', 'rf': 'always',
                                                      'collect': 'default', 'behs': [B_MORE]}, T)
         ob('fe/4items', 'fe', {'W': 3, 'items': 'B,B,B,B', 'maxw': 2, 'rf': 'always', 'collect': 'default',
                                'behs': [B_EMPTY]}, T)
-        ob('fe/4items/filter-bits', 'fe', {'W': 3, 'items': 'B,?,B,?', 'maxw': 2, 'locs': 'first', 'behs': [B_MORE]}, T)
+        ob('fe/4items/filter-bits', 'fe', {'W': 3, 'items': 'B,?,B,B', 'maxw': 2, 'locs': 'first', 'collect': 'default',
+                                           'behs': [B_MORE]}, T)
         ob('fe/behaviours/1block', 'fe', {'W': 4, 'items': 'B', 'locs': 'all', 'nshapes': 2, 'behs': ALLB}, T)
         ob('fe/behaviours/2blocks', 'fe', {'W': 3, 'items': 'B,B', 'locs': 'sorted', 'nshapes': 2, 'behs': ALLB,
                                            'collect': 'default'}, T)
-        ob('fe/behaviours/3blocks', 'fe', {'W': 3, 'items': 'B,B,B', 'locs': 'first', 'maxw': 2, 'behs': ALLB,
-                                           'collect': 'default'}, T)
-        ob('fe/less-than', 'fe', {'W': 3, 'items': 'B,?,B', 'locs': 'mixed', 'nshapes': 2, 'rf': 'less-than', 'maxw': 2,
+        ob('fe/behaviours/3blocks', 'fe', {'W': 3, 'items': 'B,B,B', 'locs': 'first', 'maxw': 2,
+                                           'behs': [B_ID, B_FEWER, B_MORE, B_EMPTY, B_RAISE], 'collect': 'default'}, T)
+        ob('fe/less-than', 'fe', {'W': 3, 'items': 'B,B,B', 'locs': 'first', 'nshapes': 2, 'rf': 'less-than', 'maxw': 2,
                                   'collect': 'default', 'behs': ALLB[:5]}, T)
-        ob('fe/always/shipped-results', 'fe', {'W': 3, 'items': 'B,?,?', 'locs': 'sorted', 'rf': 'always', 'ship': True,
+        ob('fe/always/shipped-results', 'fe', {'W': 3, 'items': 'B,?,B', 'locs': 'first', 'rf': 'always', 'ship': True,
                                                'maxw': 2, 'behs': [B_SAME, B_EMPTY, B_RAISE]}, T)
         ob('fe/submodel/M4', 'fe', {'W': 3, 'items': 'B', 'locs': 'all', 'model': 'sym', 'M': 4, 'collect': 'default',
                                     'rf': 'always', 'behs': [B_ID]}, T)
